@@ -8,6 +8,7 @@ COQ_PROPS = 'props/C13.v'
 PARTIAL = ('proved over the reals for all data sets: whenever line_fit / line_fit_wls / line_fit_rwls return, (a,b) solve the '
            '(weighted) normal equations, u(a)^2, u(b)^2, r*u(a)*u(b) are the entries of sigma^2 (X^T W X)^-1 (sigma^2 = ssr/df for '
            'OLS/RWLS, 1 for WLS), ssr is the weighted residual sum, N the number of points, df follows the N-2 / given / inf rule; '
+           'r_ab passes through _clip_r (the three fits and the WTLS wrapper): the identity over the reals (|r_ab| <= 1), r or exactly +-1 in every binary64 run; '
            'the fits are total on non-degenerate data; the solution is unique, hence RWLS with equal scale factors = OLS and '
            'shift/scale equivariance of the OLS values (partial: the weighted fits and the uncertainties only through the '
            'sums-level lemma); the extra input of each prediction method (all three classes, y_from_x and x_from_y) has the '
@@ -78,6 +79,30 @@ def check_case(c):
     new_context(77)
     cls, x, y, w, dof = c['cls'], c['x'], c['y'], c.get('w'), c.get('dof')
     n = len(x)
+    if c.get('far'):
+        # legitimate data far from zero (N >= 3, distinct x, positive weights): the fit must return, with |r| <= 1
+        if len(set(x)) < 3 or (w is not None and min(w) <= 0): return None
+        try:
+            if cls == 'WTLS':
+                # the wrapper must not turn a type-B result into a ValueError (failures of the type-B minimiser
+                # itself are not this property's: only the rejection of the correlation is)
+                try:
+                    fit = ta.line_fit_wtls(x, y, c['ux'], w, a0_b0=c.get('a0_b0'), r_xy=c.get('r_xy'), dof=dof)
+                except ValueError as e:
+                    if 'correlation coefficient' in str(e): raise
+                    return None
+                except Exception:
+                    return None
+            elif cls == 'OLS': fit = ta.line_fit(x, y)
+            elif cls == 'WLS': fit = ta.line_fit_wls(x, y, w, dof=dof)
+            else: fit = ta.line_fit_rwls(x, y, w, dof=dof)
+        except Exception as e:
+            return dict(c, failure='fit raised %s(%s) on valid data far from zero' % (type(e).__name__, e))
+        a, b = fit.a_b
+        r = a.get_correlation(b)
+        if not (abs(r) <= 1.0) or fit.N != n or not (a.u >= 0 and b.u >= 0):
+            return dict(c, failure='fit far from zero: r, N or u out of range', detail=[r, fit.N, a.u, b.u])
+        return None
     W = [Fr(1)] * n if cls == 'OLS' else [1 / (Fr(u) * Fr(u)) for u in w]
     if not well_conditioned(x, W): return None
     ex = exact_fit(x, y, W)
@@ -193,6 +218,23 @@ def rand_case(rng):
         if cls == 'WLS' and c['dof'] is None: c['dof'] = 6
     return c
 
+def far_case(rng):
+    n = rng.randint(3, 6)
+    shift = rng.choice([1.0, -1.0]) * 10.0 ** rng.uniform(5, 9)
+    x = [shift + rng.uniform(0, 10) for _ in range(n)]
+    y = [rng.uniform(-3, 3) for _ in range(n)]
+    cls = rng.choice(['OLS', 'WLS', 'RWLS'])
+    w = None if cls == 'OLS' else ([0.5] * n if rng.random() < 0.5 else [round(rng.uniform(0.2, 2.0), 2) for _ in range(n)])
+    return {'cls': cls, 'x': x, 'y': y, 'w': w, 'dof': None, 'far': True}
+
+def fixed_far_cases():
+    """the data sets of the C11-6 replay: the correlation quotient evaluates to -(1 + ulp)"""
+    names = {'COLS': 'OLS', 'CWLS': 'WLS', 'CRWLS': 'RWLS'}
+    w = fit_a.WTLS_CLIP_CASE
+    return ([{'cls': names[c], 'x': x, 'y': y, 'w': w_, 'dof': None, 'far': True} for c, x, y, w_ in fit_a.CLIP_CASES] +
+            [{'cls': 'WTLS', 'x': w['x'], 'y': w['y'], 'w': w['uy'], 'ux': w['ux'], 'r_xy': w['r_xy'], 'a0_b0': w['a0_b0'],
+              'dof': None, 'far': True}])
+
 def is_known(f):
     # the three findings of this property are FIXED: a TypeError from LineFitWLS/LineFitRWLS.y_from_x is a violation again
     return False
@@ -200,8 +242,9 @@ def is_known(f):
 def search(rng, tier, broken):
     n = 600 if tier == 'quick' else 8000
     tried = 0; known = 0
-    for _ in range(n):
-        c = rand_case(rng)
+    fixed = fixed_far_cases()
+    for i in range(n + len(fixed)):
+        c = fixed[i] if i < len(fixed) else far_case(rng) if rng.random() < 0.4 else rand_case(rng)
         tried += 1
         try:
             r = check_case(c)
@@ -216,7 +259,7 @@ def replay(payload):
     f = payload.get('failing_input')
     print(json.dumps(payload.get('broken'), indent=1, default=str)[:3000])
     if f:
-        c = {k: f.get(k) for k in ('cls', 'x', 'y', 'w', 'dof')}
+        c = {k: f.get(k) for k in ('cls', 'x', 'y', 'w', 'dof', 'far', 'ux', 'r_xy', 'a0_b0')}
         c['pred'] = tuple(f['pred']) if f.get('pred') else None
         if f.get('multi'): c['multi'] = [tuple(m) for m in f['multi']]
         r = check_case(c)
@@ -263,3 +306,20 @@ def known_rwls_scale():
     if got == s_y * fit.ssr / df and got != s_y * s_y * fit.ssr / df:
         return True, 'sqrt argument %r = s_y*ssr/df, not s_y^2*ssr/df = %r' % (got, s_y * s_y * fit.ssr / df)
     return False, 'sqrt argument %r' % got
+
+def known_wtls_far_r_ab():
+    """type_a.line_fit_wtls re-declared the correlation of the type-B (a, b) without _clip_r: for x far from zero
+    it evaluates to 1 + ulp and a.set_correlation raised ValueError"""
+    from GTC import type_a as ta
+    new_context(80)
+    c = fit_a.WTLS_CLIP_CASE
+    try:
+        fit = ta.line_fit_wtls(c['x'], c['y'], c['ux'], c['uy'], a0_b0=c['a0_b0'], r_xy=c['r_xy'])
+    except ValueError as e:
+        if 'correlation coefficient' in str(e):
+            return True, 'ValueError: %s' % e
+        return False, 'raised %r' % (e,)
+    except Exception as e:
+        return False, 'raised %r' % (e,)
+    a, b = fit.a_b
+    return False, 'returned, r = %r' % a.get_correlation(b)
